@@ -115,7 +115,7 @@ zreadMM(FILE *fp, int *m, int *n, int_t *nonz,
    }
 
     if(expand)
-      new_nonz = 2 * *nonz - *n;
+      new_nonz = 2 * *nonz; /* upper bound: a stored diagonal entry is not mirrored; the exact count is set after reading */
     else
       new_nonz = *nonz;
 
